@@ -10,6 +10,10 @@ from .coqterm import coq_list, coq_string, coq_option, coq_bool
 
 C08_FILES = ["Properties/C08.v", "Proofs/AsyncProofs.v", "Proofs/AsyncBridge.v", "Proofs/ExecRefine.v"]
 CONFIGS = [{"parent": p, "list": l, "args": a} for p in (True, False) for l in (True, False) for a in ("gather", "sync")]
+# per-field parent_concurrently / list_concurrently settings (a third of the fields concurrent, a third sequential, a
+# third left to the engine default), over both engine defaults: outside the Coq model's uniform configurations, checked
+# for identical data, started = finished and no double start
+MIXED_CONFIGS = [{"parent": p, "list": not p, "args": "gather", "mixed": m} for m, p in ((1, True), (2, False), (3, True))]
 
 
 def cfg_coq(cfg):
@@ -156,7 +160,7 @@ def small_cases(rng, s, n, kinds=("query",), fail=0.1):
 
 async def explore_schema(s, cases, rng, per_case_limit, other_cfg_runs):
     engines = {}
-    for cfg in CONFIGS:
+    for cfg in CONFIGS + MIXED_CONFIGS:
         engines[json.dumps(cfg, sort_keys=True)] = await sched.build_gated_engine(
             s, fresh_schema_name("c08"), None, None, cfg)
     out = []
@@ -166,9 +170,9 @@ async def explore_schema(s, cases, rng, per_case_limit, other_cfg_runs):
         eng = engines[json.dumps(base_cfg, sort_keys=True)]
         rs, exhaustive = await sched.enumerate_schedules(eng, s, c, per_case_limit, rng)
         runs += [(r, base_cfg, exhaustive) for r in rs]
-        for cfg in CONFIGS[1:]:
+        for cfg in CONFIGS[1:] + MIXED_CONFIGS:
             eng = engines[json.dumps(cfg, sort_keys=True)]
-            for strat in other_cfg_runs:
+            for strat in other_cfg_runs + (["last", "random"] if "mixed" in cfg else []):
                 r = await sched.run_scheduled(eng, s, c, sched.strategy(strat, rng))
                 runs.append((r, cfg, False))
         out.append((c, runs))
@@ -176,7 +180,8 @@ async def explore_schema(s, cases, rng, per_case_limit, other_cfg_runs):
 
 
 def data_key(resp):
-    return json.dumps(resp.get("data"), sort_keys=False, default=repr)
+    import re
+    return re.sub(r"0x[0-9a-fA-F]+", "0x", json.dumps(resp.get("data"), sort_keys=False, default=repr))
 
 
 def main(tier_, replay=None):
@@ -212,7 +217,8 @@ def main(tier_, replay=None):
                 if r["problems"] or r["raised"]:
                     viol.append((s, c, r, cfg, r["problems"] + ([r["raised"]] if r["raised"] else [])))
                 datas.setdefault(data_key(r["response"]), (r, cfg))
-                items.append((c, ast, r, cfg))
+                if "mixed" not in cfg:
+                    items.append((c, ast, r, cfg))
             if len(datas) > 1:
                 (r1, cfg1), (r2, cfg2) = list(datas.values())[:2]
                 viol.append((s, c, r2, cfg2, ["data differs between schedules/configurations: %s under picks %r / config %r"
